@@ -209,6 +209,13 @@ def h_kernel(env, name, what):
                     env.deriv("dk%d%d_dX%d%d" % (i, j, i, f), kk[i, j], ("X", (i, f)), dk[i, j, f])
         # the returned gradient is defined (no division by a quantity that can vanish, e.g. by the base kernel value) on the whole domain
         env.finite("gradient_defined_everywhere", [dk[i, j, f] for i in range(2) for j in range(2) for f in range(d)])
+        # Y = None: the values are the covariance matrix k(X) itself (for a noise term that includes the diagonal, unlike k(X, X))
+        ok, out0 = env.attempt("k_and_deriv_without_Y_returns", lambda: k.k_and_deriv(X.copy()))
+        if ok:
+            kx = k(X.copy())
+            for i in range(2):
+                for j in range(2):
+                    env.equal("Ynone_value_is_k(X)_%d%d" % (i, j), out0[0][i, j] + env.const(0), kx[i, j] + env.const(0))
         # documented convention for Y=None: derivative w.r.t. the first argument only (Y held fixed at X)
         if "White" in name:
             return
